@@ -329,6 +329,34 @@ func runC01(c *rt.Ctx) {
 		})
 		date.Formatter = oldF
 	}
+	// call histories: canonical texts of equal length colliding under weak checksums, parsed back to back through every input path
+	{
+		var texts []string
+		for o := ref.Ordinal(1000, 1, 1); o <= ref.Ordinal(4299, 12, 31); o++ {
+			y, m, d := ref.Civil(o)
+			texts = append(texts, ref.DateText(y, m, d, false))
+		}
+		collisionHistories(c, texts, 300, 200, func(w *rt.W, t string) {
+			rec := ref.RecogniseDate(t)
+			check := func(path string, got date.Date, err error) {
+				w.Eval(1)
+				gy, gm, gd := got.Date()
+				if err != nil || int64(gy) != rec.Y || int(gm) != rec.M || gd != rec.D {
+					c01Fail(w, "in-wrong-date-in-call-history", rec.Y, rec.M, rec.D, path+" "+t+" (parsed right after a different text of the same length)", fmt.Sprintf("%d-%d-%d err=%v", gy, gm, gd, err), t)
+				}
+			}
+			g, err := date.DefaultParser(t, 0)
+			check("DefaultParser[string]", g, err)
+			g, err = date.DefaultParser([]byte(t), 0)
+			check("DefaultParser[[]byte]", g, err)
+			var u date.Date
+			err = u.UnmarshalText([]byte(t))
+			check("UnmarshalText", u, err)
+			var j date.Date
+			err = json.Unmarshal([]byte(`"`+t+`"`), &j)
+			check("json.Unmarshal", j, err)
+		})
+	}
 	c.Extra("local_zones", len(hostileZones()))
 	c.Require("local-zone-sweep", int64(len(hostileZones())))
 	for _, cl := range []string{"leap-day", "month-end", "dec-31", "jan-1", "year-0000", "year-9999", "full-path-cross-product",
